@@ -89,17 +89,20 @@ CONFIGS = {
     "xl-batch": _c("xl", ["H2O", "H2"], 8, 3, MIXED, k=6),
     "ksa": _c("ksa", ["H2O"], 8, 1, k=4),
     "ksa-ckpt3": _c("ksa", ["H2O"], 10, 3, MIXED, k=6),
-    "cis-bomd": _c("cis_bomd", ["H2O"], 6, 2),
+    "cis-bomd": _c("cis_bomd", ["NH3"], 6, 2),
     "cis-bomd-ckpt1": _c("cis_bomd", ["H2O"], 6, 1, MIXED),
     "cis-xl": _c("cis_xl", ["H2O"], 8, 2, k=3),
-    "fssh": _c("fssh", ["H2O"], 6, 2),
-    "fssh-ckpt1": _c("fssh", ["H2O"], 6, 1, MIXED, na=2),
+    "fssh": _c("fssh", ["NH3"], 6, 2),
+    "fssh-ckpt1": _c("fssh", ["CH2O"], 6, 1, MIXED, na=2),
     "fssh-damped": _c("fssh_damped", ["H2O"], 6, 2),
     "ion-OH-": _c("bomd", ["OH-"], 6, 2),
     "ion-batch": _c("langevin", ["H2O", "OH-"], 6, 2, MIXED),
     "ion-H3O+": _c("xl", ["H3O+"], 6, 2, k=3),
     "radical-OH": _c("bomd", ["OH."], 6, 2, uhf=True),
     "coprime-vectors": _c("bomd", ["H2O"], 12, 4, COPRIME),
+    # options of Molecular_Dynamics_Basic.run (velocity rescaling thermostat / energy-shift control)
+    "bomd-scalevel": _c("bomd", ["H2O"], 6, 2, scale_vel=[2, 500.0]),
+    "bomd-eshift": _c("bomd", ["H2O"], 6, 2, control_energy_shift=True),
 }
 
 LOGICAL_ALL = ["step", "h5.append_data", "h5.append_vectors", "h5.append_nonadiabatic", "h5.flush", "h5file.flush",
@@ -134,6 +137,8 @@ def gen_cases(tier, seed):
         logical("fssh", ["step"], 1, phases=("after",), w=3)
         logical("ion-OH-", ["step"], 1, phases=("after",))
         logical("ion-batch", ["save_checkpoint"], 1, phases=("after",))
+        logical("bomd-scalevel", ["save_checkpoint"], 1, phases=("after",))
+        logical("bomd-eshift", ["os.replace"], 1, phases=("before",))
         logical("bomd-batch-mixed", ["step", "h5.append_data", "xyz.write", "save_checkpoint"], 3, mode="raise",
                 phases=("after",))
         for name, k in (("bomd-batch-mixed", 2), ("langevin", 2), ("xl-k3", 1)):
@@ -153,7 +158,7 @@ def gen_cases(tier, seed):
             logical(name, LOGICAL_ALL, 14 if not heavy else 20, w=3 if heavy else 1)
         for name in ("bomd-removecom", "bomd-ckpt1", "bomd-ckpt5", "langevin-noreuse", "xl-k3", "xl-k5-ckpt1",
                      "xl-k9-ckpt1", "xl-damped", "ksa", "cis-bomd-ckpt1", "fssh-ckpt1", "fssh-damped", "ion-H3O+",
-                     "radical-OH", "coprime-vectors"):
+                     "radical-OH", "coprime-vectors", "bomd-scalevel", "bomd-eshift"):
             logical(name, CKPT_TARGETS, 6, w=2 if name.startswith(("fssh", "cis")) else 1)
         for name in ("bomd-batch-mixed", "langevin", "xl-k5", "cis-bomd"):
             logical(name, LOGICAL_ALL, 8, mode="raise")
@@ -220,6 +225,11 @@ def classify(cfg, clause, detail, last_ckpt, resume_steps):
                                                                         and last_ckpt.get("has_mult")):
         if clause in ("resume-raised", "h5-content", "xyz-frames"):
             return "checkpoint-lacks-charge-multiplicity"
+    if (cfg.get("scale_vel") and last_ckpt and last_ckpt.get("loadable") and not last_ckpt.get("has_scale_vel")) or \
+            (cfg.get("control_energy_shift") and last_ckpt and last_ckpt.get("loadable")
+             and not last_ckpt.get("has_energy_shift")):
+        if clause in ("h5-content", "xyz-frames"):
+            return "velocity-scaling-options-lost-on-resume"
     if clause == "xyz-frames":
         # only duplicates, every due frame present, and every duplicated label lies after a checkpoint that was
         # resumed from: frames between that checkpoint and the crash were on disk and got appended again
@@ -230,7 +240,8 @@ def classify(cfg, clause, detail, last_ckpt, resume_steps):
                 and resume_steps and all(x > min(resume_steps) for x in dup):
             return "xyz-frames-duplicated-after-crash-between-checkpoints"
         return None
-    if clause == "h5-content" and cfg["engine"].startswith("fssh"):
+    if clause == "h5-content" and cfg["engine"] in ("fssh", "fssh_damped", "cis_bomd", "cis_xl"):
+        # engines that carry excited-state amplitudes expressed in the sign/order-tracked orbital basis
         probs = detail.get("problems", [])
         only_values = all(p["what"] == "value" for p in probs)
         if only_values and last_ckpt and last_ckpt.get("loadable") and not last_ckpt.get("has_orbitals"):
@@ -377,7 +388,7 @@ class Player:
     def cleanup(self):
         shutil.rmtree(self.sdir, ignore_errors=True)
 
-    def child(self, cfg, action, hist, crash=None, kill_after=None, strace=None, log_calls=True):
+    def child(self, cfg, action, hist, crash=None, kill_after=None, strace=None, log_calls=True, kill_at=None):
         from vlib import mdio
         k = len(hist)
         evp, outp = os.path.join(self.sdir, "c%d.ev" % k), os.path.join(self.sdir, "c%d.out" % k)
@@ -387,7 +398,7 @@ class Player:
         if strace:
             r = mdio.exec_child(job, timeout=400, strace=strace)
         else:
-            r = mdio.fork_child(job, timeout=400, kill_after=kill_after)
+            r = mdio.fork_child(job, timeout=400, kill_after=kill_after, kill_at=kill_at)
         rec = {"action": action, "code": r["code"], "timed_out": r["timed_out"], "events": mdio.read_events(evp),
                "log_calls": log_calls}
         if action == "resume":
@@ -408,7 +419,7 @@ class Player:
             for c in crashes:
                 strace = _strace_spec(cfg, c["strace_cls"], c["when"]) if "strace_cls" in c else None
                 rec = self.child(cfg, action, hist, crash=c.get("crash"), kill_after=c.get("kill_after"),
-                                 strace=strace, log_calls=not strace)
+                                 strace=strace, log_calls=not strace, kill_at=c.get("kill_at"))
                 if rec["timed_out"]:
                     return "watchdog", [], {}
                 code = rec["code"]
@@ -439,6 +450,10 @@ class Player:
             return "judged", viol, {"disk_states": states, "children": len(hist)}
         finally:
             self.cleanup()
+
+
+def cfg_steps(case):
+    return int(case["cfg"]["steps"])
 
 
 def _logical_points(census, targets, phases):
@@ -472,7 +487,7 @@ def _syscall_census(case, d):
                 counts["pwrite64"] += 1
             elif name == "write" and ".xyz>" in body:
                 counts["write"] += 1
-            elif name == "writev" and ".tmp_ckpt_" in body:
+            elif name == "writev" and (".tmp_ckpt_" in body or ".restart.pt" in body):
                 counts["writev"] += 1
             elif name == "rename" and ".restart.pt" in body:
                 counts["rename"] += 1
@@ -557,11 +572,17 @@ def run_case(case):
                                   "desc": "%s %s %s #%d (in resumed process)" % (mode, ph, t, n)})
                 scenarios.append(("seq:" + ";".join(x["desc"] for x in specs), specs))
         elif kind == "sigkill":
+            # the instant is random but anchored to the child's own progress (number of event-log lines written)
+            # plus a random delay of up to ~1.5 integrator steps, so that machine load cannot move it past the end
+            nlines = sum(1 for e in rev if e.get("ev") == "call")
+            t_step = t_ref / max(1, cfg_steps(case))
             for s in plan["seeds"]:
                 g = np.random.default_rng(s)
-                frac = float(g.uniform(0.08, 0.98))
-                scenarios.append(("sigkill@%.2f" % frac, [{"kill_after": frac * t_ref, "desc": "SIGKILL at %.0f%% of "
-                                                           "the reference wall time" % (100 * frac)}]))
+                k = int(g.integers(1, max(2, nlines - 4)))
+                delay = float(g.uniform(0.0, 1.5 * t_step))
+                scenarios.append(("sigkill@event%d+%.0fms" % (k, 1e3 * delay),
+                                  [{"kill_at": [k, delay], "desc": "SIGKILL %.0f ms after event-log line %d of %d"
+                                    % (1e3 * delay, k, nlines)}]))
         elif kind == "syscall":
             counts = _syscall_census(case, d)
             if counts is None:
